@@ -44,4 +44,16 @@ def ofHexChars : List Char → Option Bytes
 def ofHex (s : String) : Option Bytes :=
   if s = "-" then some [] else ofHexChars s.toList
 
+/-- `<hex>[*count](+<hex>[*count])*` or `-` (the harnesses' compact notation for long strings) -/
+def ofHexRep (s : String) : Option Bytes :=
+  if s = "-" then some [] else
+  (s.splitOn "+").foldlM (fun acc seg =>
+    match seg.splitOn "*" with
+    | [h] => do let b ← ofHexChars h.toList; pure (acc ++ b)
+    | [h, n] => do
+      let b ← ofHexChars h.toList
+      let k ← n.toNat?
+      pure (acc ++ (List.replicate k b).flatten)
+    | _ => none) []
+
 end Mqtt5V
